@@ -96,7 +96,14 @@ class ContractDB:
         if not cs:
             return [{}]
         keys = sorted(cs)
-        return [dict(zip(keys, vals)) for vals in itertools.product(*[cs[k] for k in keys])]
+        out = [dict(zip(keys, vals)) for vals in itertools.product(*[cs[k] for k in keys])]
+        # restrict=[{selector}, [allowed partial cases]]: a case matching the selector is kept only if it also matches an allowed one
+        r = c.options.get('restrict')
+        if r:
+            sel, allowed = r
+            match = lambda case, part: all(case.get(k) == v for k, v in part.items())
+            out = [d for d in out if not match(d, sel) or any(match(d, a) for a in allowed)]
+        return out
 
     def get(self, qualname):
         cs = self.contracts.get(qualname)
